@@ -348,23 +348,26 @@ Fixpoint map_res {A B} (f : A -> res B) (l : list A) : res (list B) :=
   | x :: t => y <- f x ;; r <- map_res f t ;; Ok (y :: r)
   end.
 
-(* handle_arglist(n, val_ptr, hasequal, i, argc, argv) *)
+(* handle_arglist(n, val_ptr, hasequal, i, argc, argv): the entries written into the new array *)
+Definition arglist_words (e : env) (s : st) (val : ptr) (hasequal : bool) : res (list (option word)) :=
+  if hasequal then
+    v <- cstr_at e val ;;
+    let len := num_words v in
+    fill_array (len + 1) (map (fun k => get_word (S k) v) (seq 0 len))
+  else
+    let len := (e_argc e - st_i s)%nat in
+    ws <- map_res (fun k => match k with
+                            | O => v <- cstr_at e val ;; Ok (Some v)
+                            | _ => a <- argv_get (st_argv s) (k + st_i s) ;;
+                                   match a with
+                                   | None => Fault Null_deref           (* strdup(NULL) *)
+                                   | Some sid => v <- cstr_at e (sid, O) ;; Ok (Some v)
+                                   end
+                            end) (seq 0 len) ;;
+    fill_array (e_argc e - st_i s + 1) ws.
+
 Definition handle_arglist (e : env) (o : opt) (s : st) (val : ptr) (hasequal : bool) : res store :=
-  ws <- (if hasequal then
-           v <- cstr_at e val ;;
-           let len := num_words v in
-           fill_array (len + 1) (map (fun k => get_word (S k) v) (seq 0 len))
-         else
-           let len := (e_argc e - st_i s)%nat in
-           ws <- map_res (fun k => match k with
-                                   | O => v <- cstr_at e val ;; Ok (Some v)
-                                   | _ => a <- argv_get (st_argv s) (k + st_i s) ;;
-                                          match a with
-                                          | None => Fault Null_deref           (* strdup(NULL) *)
-                                          | Some sid => v <- cstr_at e (sid, O) ;; Ok (Some v)
-                                          end
-                                   end) (seq 0 len) ;;
-           fill_array (e_argc e - st_i s + 1) ws) ;;
+  ws <- arglist_words e s val hasequal ;;
   l <- slot_upd (sl (st_sto s)) (o_slot o) (fun _ => Some ws) ;;
   Ok (set_sl (st_sto s) l).
 
@@ -433,48 +436,78 @@ Section Step.
       else finish s
     else finish s.
 
-  (* from "if (!PREPARSE && REMOVE_ARGS) argv[i] = NULL" after the lookup to the dispatch;
+  (* a value taken from the next argument is consumed:
+     "if (val_ptr == argv[i + 1]) { i++; opt += strlen(opt); }" *)
+  Definition consume_value (s : st) (p : ptr) (nxt : option nat) (val : option ptr) : res (st * ptr) :=
+    if is_some val && optptr_eqb val (arg_ptr nxt) then
+      rest <- cstr_at e p ;; Ok (set_i s (S (st_i s)), (fst p, (snd p + length rest)%nat))
+    else Ok (s, p).
+
+  (* find_value_long / find_value_short: the value pointer and hasequal *)
+  Definition find_value (p : ptr) (nxt : option nat) (islong : bool) : res (option ptr * bool) :=
+    if islong then
+      name <- cstr_at e p ;;
+      match index_eq name with
+      | Some k => Ok (Some (fst p, (snd p + k + 1)%nat), true)
+      | None => Ok (arg_ptr nxt, false)
+      end
+    else
+      c <- getc e (fst p, S (snd p)) ;;
+      if c =? 0 then Ok (arg_ptr nxt, false) else Ok (Some (fst p, S (snd p)), false).
+
+  (* from "if (val_ptr == argv[i + 1])" to the dispatch: val is the value pointer that survived the
+     boolean / abstract filter, nxt = argv[i + 1] *)
+  Definition with_value (s : st) (p : ptr) (o : opt) (nxt : option nat) (islong hasequal : bool)
+             (val : option ptr) : res outcome :=
+    '(s, p) <- consume_value s p nxt val ;;
+    (* (the deprecation warning only prints) *)
+    if needs_value o then
+      match val with
+      | None => check_bad e s (fun s => next_loop s p islong val)
+      | Some _ =>
+        if is_some (o_slot o) then dispatch s p o islong hasequal val else next_loop s p islong val
+      end
+    else if is_abstract o && negb (is_some (o_slot o)) then next_loop s p islong val
+    else dispatch s p o islong hasequal val.
+
+  (* from "if (!PREPARSE && REMOVE_ARGS) argv[i] = NULL" after the lookup to with_value;
      p points at the option letter / at the long name *)
   Definition after_find (s : st) (p : ptr) (j : nat) (islong : bool) : res outcome :=
     s <- clear_arg e s ;;
     nxt <- argv_get (st_argv s) (S (st_i s)) ;;
-    (* find_value_long / find_value_short *)
-    '(val, hasequal) <-
-      (if islong then
-         name <- cstr_at e p ;;
-         match index_eq name with
-         | Some k => Ok (Some (fst p, (snd p + k + 1)%nat), true)
-         | None => Ok (arg_ptr nxt, false)
-         end
-       else
-         c <- getc e (fst p, S (snd p)) ;;
-         if c =? 0 then Ok (arg_ptr nxt, false) else Ok (Some (fst p, S (snd p)), false)) ;;
+    '(val, hasequal) <- find_value p nxt islong ;;
     o <- tbl_get e j ;;
     (* "Boolean options may or may not have a value..." *)
-    let cont (val : option ptr) (s : st) : res outcome :=
-      (* a value taken from the next argument is consumed: i++; opt += strlen(opt) *)
-      '(s, p) <-
-        (if is_some val && optptr_eqb val (arg_ptr nxt) then
-           rest <- cstr_at e p ;; Ok (set_i s (S (st_i s)), (fst p, (snd p + length rest)%nat))
-         else Ok (s, p)) ;;
-      (* (the deprecation warning only prints) *)
-      if needs_value o then
-        match val with
-        | None => check_bad e s (fun s => next_loop s p islong val)
-        | Some _ =>
-          if is_some (o_slot o) then dispatch s p o islong hasequal val else next_loop s p islong val
-        end
-      else if is_abstract o && negb (is_some (o_slot o)) then next_loop s p islong val
-      else dispatch s p o islong hasequal val in
     match val with
-    | None => cont None s
+    | None => with_value s p o nxt islong hasequal None
     | Some v =>
       vs <- cstr_at e v ;;
-      if is_boolean o && (negb islong || negb (is_boolean_value vs)) then cont None s
+      if is_boolean o && (negb islong || negb (is_boolean_value vs)) then with_value s p o nxt islong hasequal None
       else if is_abstract o then
-        is_valid_option e vs s (fun valid s => if valid then cont None s else cont val s)
-      else cont val s
+        is_valid_option e vs s (fun valid s => with_value s p o nxt islong hasequal (if valid then None else val))
+      else if negb (needs_value o) && negb (is_boolean o) then
+        (* a counter, or no type at all: takes no value *)
+        with_value s p o nxt islong hasequal None
+      else with_value s p o nxt islong hasequal val
     end.
+
+  (* "if (opt[0] is a hyphen) ... find_long_option ... else ... find_short_option": p is the cursor behind
+     the leading hyphen, or somewhere inside a bundle *)
+  Definition lookup (s : st) (p : ptr) : res outcome :=
+    c <- getc e p ;;
+    if c =? 45 then
+      (* long option: skip the second hyphen *)
+      let p := (fst p, S (snd p)) in
+      name <- cstr_at e p ;;
+      match find_long (e_tbl e) name with
+      | None => check_bad e s next_arg
+      | Some j => after_find s p j true
+      end
+    else
+      match find_short (e_tbl e) c with
+      | None => check_bad e s (fun s => next_letter s p)
+      | Some j => after_find s p j false
+      end.
 
   (* one round of "for (i = 1, opt = argv[1]; i < argc; )" *)
   Definition step (s : st) (cur : option ptr) : res outcome :=
@@ -484,28 +517,14 @@ Section Step.
       | None => Ok (Done (e_pre e) s)                                  (* break *)
       | Some p =>
         ai <- argv_get (st_argv s) (st_i s) ;;
-        let lookup (p : ptr) : res outcome :=
-          c <- getc e p ;;
-          if c =? 45 then
-            (* long option: skip the second hyphen *)
-            let p := (fst p, S (snd p)) in
-            name <- cstr_at e p ;;
-            match find_long (e_tbl e) name with
-            | None => check_bad e s next_arg
-            | Some j => after_find s p j true
-            end
-          else
-            match find_short (e_tbl e) c with
-            | None => check_bad e s (fun s => next_letter s p)
-            | Some j => after_find s p j false
-            end in
         if optptr_eqb (Some p) (arg_ptr ai) then
+          (* at the start of argv[i]: a word or a lone hyphen is skipped *)
           c <- getc e p ;;
           if negb (c =? 45) then next_arg s
           else
             c1 <- getc e (fst p, S (snd p)) ;;
-            if c1 =? 0 then next_arg s else lookup (fst p, S (snd p))
-        else lookup p
+            if c1 =? 0 then next_arg s else lookup s (fst p, S (snd p))
+        else lookup s p
       end.
 End Step.
 
@@ -564,3 +583,162 @@ Definition parse_twice (e : env) (s : st) : res outcome :=
 (* the state spifopt_parse is entered with: argv[k] points to string k, argv[argc] = NULL *)
 Definition init_argv (argc : nat) : list (option nat) := map Some (seq 0 argc) ++ [None].
 Definition init_st (argc : nat) (sto : store) (bad : Z) : st := mkst 1%nat (init_argv argc) sto bad O O.
+
+(* ---------------------------------------------------------------------------------- *)
+(* specification: command lines as lists of spellings, and their ideal reading          *)
+(* ---------------------------------------------------------------------------------- *)
+Inductive optref : Type := ByShort (x : byte) | ByLong (l : word).
+
+Inductive spelling : Type :=
+| ShortFlag (x : byte)                        (* -x            option without a value *)
+| Bundle (xs : list byte)                     (* -xyz          several of them *)
+| ShortAttached (x : byte) (v : word)         (* -xVALUE *)
+| ShortSep (x : byte) (v : word)              (* -x VALUE *)
+| LongFlag (l : word)                         (* --long *)
+| LongEq (l : word) (v : word)                (* --long=VALUE *)
+| LongSep (l : word) (v : word)               (* --long VALUE *)
+| BoolWord (l : word) (w : word)              (* --long WORD   boolean option, WORD a boolean word *)
+| ArgListRest (r : optref) (ws : list word)   (* -x w1 w2 ... / --long w1 w2 ...  to the end of the line *)
+| Word (w : word).                            (* a non-option word *)
+
+Definition ref_arg (r : optref) : word :=
+  match r with ByShort x => [45; x] | ByLong l => 45 :: 45 :: l end.
+
+Definition render_one (sp : spelling) : list word :=
+  match sp with
+  | ShortFlag x => [[45; x]]
+  | Bundle xs => [45 :: xs]
+  | ShortAttached x v => [45 :: x :: v]
+  | ShortSep x v => [[45; x]; v]
+  | LongFlag l => [45 :: 45 :: l]
+  | LongEq l v => [45 :: 45 :: l ++ 61 :: v]
+  | LongSep l v => [45 :: 45 :: l; v]
+  | BoolWord l w => [45 :: 45 :: l; w]
+  | ArgListRest r ws => ref_arg r :: ws
+  | Word w => [w]
+  end.
+Definition render (sps : list spelling) : list word := concat (map render_one sps).
+
+(* the kind of an option, in the order the parser tests the type bits *)
+Inductive kind : Type := KBool | KStr | KInt | KList | KAbs | KNone.
+Definition kind_of (o : opt) : kind :=
+  if is_boolean o then KBool else if is_string o then KStr else if is_integer o then KInt
+  else if is_arglist o then KList else if is_abstract o then KAbs else KNone.
+
+(* the option a spelling names: the first entry with that letter / that name (case ignored) *)
+Definition find_opt (tbl : list opt) (r : optref) : option opt :=
+  match r with
+  | ByShort x => find (fun o => o_short o =? x) tbl
+  | ByLong l => find (fun o => streq_ci (o_long o) l) tbl
+  end.
+
+(* total update of a target through a value pointer *)
+Definition put {A} (l : list A) (slot : option nat) (f : A -> A) : list A :=
+  match slot with
+  | Some k => match nth_error l k with Some v => upd l k (f v) | None => l end
+  | None => l
+  end.
+
+(* the words of --list=VALUE (word splitting itself belongs to property C12) *)
+Definition split_words (v : word) : list (option word) :=
+  map (fun k => get_word (S k) v) (seq 0 (num_words v)).
+
+Inductive optarg : Type := AFlag | AVal (v : word) | ARest (ws : list word).
+
+(* what one occurrence of option o does to the targets on the pass [pre] *)
+Definition assign (pre : bool) (o : opt) (a : optarg) (sto : store) : store :=
+  if negb (Bool.eqb pre (is_preparse o)) then sto        (* option of the other pass: left alone *)
+  else
+    match kind_of o, a with
+    | KBool, AFlag => set_sb sto (put (sb sto) (o_slot o) (or_mask o))
+    | KBool, AVal v => set_sb sto (put (sb sto) (o_slot o) (if istrue v then or_mask o else clr_mask o))
+    | KStr, AVal v => set_ss sto (put (ss sto) (o_slot o) (fun _ => Some v))
+    | KInt, AVal v => set_si sto (put (si sto) (o_slot o) (fun _ => to_int (strtol0 v)))
+    | KList, AVal v => set_sl sto (put (sl sto) (o_slot o) (fun _ => Some (split_words v)))
+    | KList, ARest ws => set_sl sto (put (sl sto) (o_slot o) (fun _ => Some (map Some ws)))
+    | KAbs, AVal v => match o_slot o with
+                      | Some k => set_sa sto (sa sto ++ [(k, Some v)])
+                      | None => sto
+                      end
+    | _, _ => sto
+    end.
+
+Definition assign_ref (pre : bool) (tbl : list opt) (r : optref) (a : optarg) (sto : store) : store :=
+  match find_opt tbl r with Some o => assign pre o a sto | None => sto end.
+
+(* ideal reading of one spelling: the targets and the non-option words seen so far *)
+Definition ideal_one (pre : bool) (tbl : list opt) (acc : store * list word) (sp : spelling) : store * list word :=
+  let '(sto, ws) := acc in
+  match sp with
+  | ShortFlag x => (assign_ref pre tbl (ByShort x) AFlag sto, ws)
+  | Bundle xs => (fold_left (fun s x => assign_ref pre tbl (ByShort x) AFlag s) xs sto, ws)
+  | ShortAttached x v | ShortSep x v => (assign_ref pre tbl (ByShort x) (AVal v) sto, ws)
+  | LongFlag l => (assign_ref pre tbl (ByLong l) AFlag sto, ws)
+  | LongEq l v | LongSep l v | BoolWord l v => (assign_ref pre tbl (ByLong l) (AVal v) sto, ws)
+  | ArgListRest r rest => (assign_ref pre tbl r (ARest rest) sto, ws)
+  | Word w => (sto, ws ++ [w])
+  end.
+(* last occurrence wins: the spellings are applied from left to right *)
+Definition ideal (pre : bool) (tbl : list opt) (sps : list spelling) (sto : store) : store * list word :=
+  fold_left (ideal_one pre tbl) sps (sto, []).
+
+(* argv as the caller sees it afterwards: the strings up to the first NULL *)
+Fixpoint argv_words (strs : list word) (a : list (option nat)) : list word :=
+  match a with
+  | Some sid :: t => nth sid strs [] :: argv_words strs t
+  | _ => []
+  end.
+
+(* ---- the side conditions of the round trip, as decidable tests ---- *)
+Definition nz_word (w : word) : bool := forallb (fun c => negb (c =? 0)) w.
+Definition no_eq (w : word) : bool := forallb (fun c => negb (c =? 61)) w.
+Definition letter_ok_b (x : byte) : bool := negb (x =? 0) && negb (x =? 45).
+(* an option without a value: boolean, counter, or no type at all *)
+Definition flag_kind (o : opt) : bool := negb (needs_value o) && negb (is_abstract o).
+(* an option that takes VALUE: string or integer (value pointer checked by the parser), or abstract *)
+Definition value_kind (o : opt) (v : word) : bool :=
+  negb (is_boolean o) &&
+  ((needs_value o && (is_string o || is_integer o) && is_some (o_slot o))
+   || (negb (needs_value o) && is_abstract o && is_some (o_slot o) && negb (hd 0 v =? 45))).
+Definition list_kind (o : opt) : bool :=
+  negb (is_boolean o) && negb (is_string o) && negb (is_integer o) && is_arglist o && is_some (o_slot o).
+Definition bool_kind (o : opt) : bool := is_boolean o && negb (needs_value o) && negb (is_abstract o).
+
+Definition opt_is (tbl : list opt) (r : optref) (p : opt -> bool) : bool :=
+  match find_opt tbl r with Some o => p o | None => false end.
+Definition name_ok (l : word) : bool := nz_word l && no_eq l.
+
+(* [next]: the argument that follows the spelling on the command line, if any *)
+Definition sp_ok (tbl : list opt) (sp : spelling) (next : option word) : bool :=
+  match sp with
+  | ShortFlag x => letter_ok_b x && opt_is tbl (ByShort x) flag_kind
+  | Bundle xs => negb (match xs with [] => true | _ => false end) &&
+                 forallb (fun x => letter_ok_b x && opt_is tbl (ByShort x) flag_kind) xs
+  | ShortAttached x v => letter_ok_b x && nz_word v && negb (match v with [] => true | _ => false end) &&
+                         opt_is tbl (ByShort x) (fun o => value_kind o v)
+  | ShortSep x v => letter_ok_b x && nz_word v && opt_is tbl (ByShort x) (fun o => value_kind o v)
+  | LongFlag l => name_ok l && opt_is tbl (ByLong l) flag_kind &&
+                  (* a boolean word after --flag would be read as its value *)
+                  (negb (opt_is tbl (ByLong l) is_boolean) ||
+                   match next with Some w => negb (is_boolean_value w) | None => true end)
+  | LongEq l v => name_ok l && nz_word v &&
+                  (opt_is tbl (ByLong l) (fun o => value_kind o v) ||
+                   (opt_is tbl (ByLong l) bool_kind && is_boolean_value v) ||
+                   opt_is tbl (ByLong l) list_kind)
+  | LongSep l v => name_ok l && nz_word v && opt_is tbl (ByLong l) (fun o => value_kind o v)
+  | BoolWord l w => name_ok l && nz_word w && opt_is tbl (ByLong l) bool_kind && is_boolean_value w
+  | ArgListRest r ws =>
+    match r with ByShort x => letter_ok_b x | ByLong l => name_ok l end &&
+    opt_is tbl r list_kind && negb (match ws with [] => true | _ => false end) && forallb nz_word ws &&
+    match next with None => true | Some _ => false end          (* it takes the rest of the line *)
+  | Word w => nz_word w && (negb (hd 0 w =? 45) || match w with [_] => true | _ => false end)
+  end.
+
+Fixpoint sps_ok (tbl : list opt) (sps : list spelling) : bool :=
+  match sps with
+  | [] => true
+  | sp :: rest => sp_ok tbl sp (hd_error (render rest)) && sps_ok tbl rest
+  end.
+
+(* the table side of the round trip: long names are C strings without '=' *)
+Definition names_ok (tbl : list opt) : bool := forallb (fun o => name_ok (o_long o)) tbl.
